@@ -166,9 +166,45 @@ pub fn sll_arphrd_supported(h: u16) -> bool {
     matches!(h, 1 | 770 | 778 | 803 | 824)
 }
 
+/// which extension header slots of the fixed `Ipv6Extensions` struct are taken (struct decoding only)
+#[derive(Default, Clone, Copy)]
+struct Slots {
+    dest: bool,
+    routing: bool,
+    final_dest: bool,
+    frag: bool,
+    auth: bool,
+}
+impl Slots {
+    /// documented exception of struct decoding: a header kind that no longer fits ends the chain
+    fn take(&mut self, n: u8) -> bool {
+        let slot: &mut bool = match n {
+            60 => {
+                if self.routing {
+                    &mut self.final_dest
+                } else {
+                    &mut self.dest
+                }
+            }
+            43 => &mut self.routing,
+            44 => &mut self.frag,
+            51 => &mut self.auth,
+            _ => return true,
+        };
+        if *slot {
+            false
+        } else {
+            *slot = true;
+            true
+        }
+    }
+}
+
 struct W<'a> {
     b: &'a [u8],
     lax: bool,
+    /// decode like the fixed header structs: stop the IPv6 extension chain at the first header kind that does not fit
+    struct_mode: bool,
     pos: usize,
     end: usize,
     /// enclosing length fields and the absolute end they imply
@@ -663,7 +699,11 @@ impl<'a> W<'a> {
         let mut next = nh;
         let mut first = true;
         let mut fragmented = false;
+        let mut slots = Slots::default();
         loop {
+            if self.struct_mode && !(next == 0) && !slots.take(next) {
+                break;
+            }
             let ok = match next {
                 0 => {
                     if first {
@@ -977,7 +1017,13 @@ impl<'a> W<'a> {
 
 /// decode `b` as it arrives through `door`
 pub fn decode(door: Door, b: &[u8], lax: bool) -> RefResult {
-    let mut w = W { b, lax, pos: 0, end: b.len(), lims: vec![], out: RefResult::default(), nlayers_at_door: 0 };
+    decode_opts(door, b, lax, false)
+}
+
+/// `struct_mode`: decode like the fixed header structs (PacketHeaders, Ipv6Extensions): the IPv6 extension
+/// chain ends at the first header kind that does not fit the struct any more, which is then the payload's protocol
+pub fn decode_opts(door: Door, b: &[u8], lax: bool, struct_mode: bool) -> RefResult {
+    let mut w = W { b, lax, struct_mode, pos: 0, end: b.len(), lims: vec![], out: RefResult::default(), nlayers_at_door: 0 };
     match door {
         Door::Eth2 => {
             let n = w.eth2();
@@ -1010,7 +1056,11 @@ pub fn decode(door: Door, b: &[u8], lax: bool) -> RefResult {
             w.nlayers_at_door = usize::MAX;
             let mut next = n;
             let mut first = true;
+            let mut slots = Slots::default();
             loop {
+                if w.struct_mode && !(next == 0) && !slots.take(next) {
+                    break;
+                }
                 let r = match next {
                     0 => {
                         if first {
@@ -1042,7 +1092,10 @@ pub fn decode(door: Door, b: &[u8], lax: bool) -> RefResult {
 
 /// single IPv4 / IPv6 packet as the version specific decoders see it (no transport)
 pub fn decode_ip_only(b: &[u8], lax: bool, require: Option<u8>) -> RefResult {
-    let mut w = W { b, lax, pos: 0, end: b.len(), lims: vec![], out: RefResult::default(), nlayers_at_door: 0 };
+    decode_ip_only_opts(b, lax, require, false)
+}
+pub fn decode_ip_only_opts(b: &[u8], lax: bool, require: Option<u8>, struct_mode: bool) -> RefResult {
+    let mut w = W { b, lax, struct_mode, pos: 0, end: b.len(), lims: vec![], out: RefResult::default(), nlayers_at_door: 0 };
     w.ip(require);
     w.out
 }
